@@ -25,16 +25,16 @@ type privateKey interface {
 
 // pkFamily describes a public-key key class pair by closures; pkTargets turns it into targets.
 type pkFamily struct {
-	pkg, variant     string
-	cost             int
+	pkg, variant      string
+	cost              int
 	privKind, pubKind string // signer/verifier or hybriddec/hybridenc
-	priv0            privateKey
-	pubArg, pubAcc   string // constructor argument name and accessor name of the public bytes
-	getPub           func(k key.Key) []byte
-	mkPub            func(b []byte) (key.Key, error)
-	privArg, privAcc string
-	getPriv          func(k key.Key) secretdata.Bytes
-	mkPriv           map[string]func(sd secretdata.Bytes, pub key.Key) (key.Key, error) // constructor name -> constructor
+	priv0             privateKey
+	pubArg, pubAcc    string // constructor argument name and accessor name of the public bytes
+	getPub            func(k key.Key) []byte
+	mkPub             func(b []byte) (key.Key, error)
+	privArg, privAcc  string
+	getPriv           func(k key.Key) secretdata.Bytes
+	mkPriv            map[string]func(sd secretdata.Bytes, pub key.Key) (key.Key, error) // constructor name -> constructor
 }
 
 func pkTargets(f pkFamily) {
@@ -113,8 +113,12 @@ func init() {
 			mkPub:   func(b []byte) (key.Key, error) { return ecdsa.NewPublicKey(b, idOf(p0), params) },
 			privArg: "privateKeyValue", privAcc: "PrivateKeyValue", getPriv: func(k key.Key) secretdata.Bytes { return k.(*ecdsa.PrivateKey).PrivateKeyValue() },
 			mkPriv: map[string]func(sd secretdata.Bytes, pub key.Key) (key.Key, error){
-				"NewPrivateKey":              func(sd secretdata.Bytes, pub key.Key) (key.Key, error) { return ecdsa.NewPrivateKey(sd, idOf(p0), params) },
-				"NewPrivateKeyFromPublicKey": func(sd secretdata.Bytes, pub key.Key) (key.Key, error) { return ecdsa.NewPrivateKeyFromPublicKey(pub.(*ecdsa.PublicKey), sd) },
+				"NewPrivateKey": func(sd secretdata.Bytes, pub key.Key) (key.Key, error) {
+					return ecdsa.NewPrivateKey(sd, idOf(p0), params)
+				},
+				"NewPrivateKeyFromPublicKey": func(sd secretdata.Bytes, pub key.Key) (key.Key, error) {
+					return ecdsa.NewPrivateKeyFromPublicKey(pub.(*ecdsa.PublicKey), sd)
+				},
 			}})
 	}
 	{
@@ -125,7 +129,9 @@ func init() {
 			mkPub:   func(b []byte) (key.Key, error) { return ecdsa.NewPublicKey(b, idOf(p0), params) },
 			privArg: "privateKeyValue", privAcc: "PrivateKeyValue", getPriv: func(k key.Key) secretdata.Bytes { return k.(*ecdsa.PrivateKey).PrivateKeyValue() },
 			mkPriv: map[string]func(sd secretdata.Bytes, pub key.Key) (key.Key, error){
-				"NewPrivateKey": func(sd secretdata.Bytes, pub key.Key) (key.Key, error) { return ecdsa.NewPrivateKey(sd, idOf(p0), params) },
+				"NewPrivateKey": func(sd secretdata.Bytes, pub key.Key) (key.Key, error) {
+					return ecdsa.NewPrivateKey(sd, idOf(p0), params)
+				},
 			}})
 	}
 	// ---------------- Ed25519
@@ -137,8 +143,12 @@ func init() {
 			mkPub:   func(b []byte) (key.Key, error) { return ed25519.NewPublicKey(b, idOf(p0), params) },
 			privArg: "privateKeyBytes", privAcc: "PrivateKeyBytes", getPriv: func(k key.Key) secretdata.Bytes { return k.(*ed25519.PrivateKey).PrivateKeyBytes() },
 			mkPriv: map[string]func(sd secretdata.Bytes, pub key.Key) (key.Key, error){
-				"NewPrivateKey":              func(sd secretdata.Bytes, pub key.Key) (key.Key, error) { return ed25519.NewPrivateKey(sd, idOf(p0), params) },
-				"NewPrivateKeyWithPublicKey": func(sd secretdata.Bytes, pub key.Key) (key.Key, error) { return ed25519.NewPrivateKeyWithPublicKey(sd, pub.(*ed25519.PublicKey)) },
+				"NewPrivateKey": func(sd secretdata.Bytes, pub key.Key) (key.Key, error) {
+					return ed25519.NewPrivateKey(sd, idOf(p0), params)
+				},
+				"NewPrivateKeyWithPublicKey": func(sd secretdata.Bytes, pub key.Key) (key.Key, error) {
+					return ed25519.NewPrivateKeyWithPublicKey(sd, pub.(*ed25519.PublicKey))
+				},
 			}})
 	}
 	// ---------------- ML-DSA
@@ -150,8 +160,12 @@ func init() {
 			mkPub:   func(b []byte) (key.Key, error) { return mldsa.NewPublicKey(b, idOf(p0), params) },
 			privArg: "privateKeyBytes", privAcc: "PrivateKeyBytes", getPriv: func(k key.Key) secretdata.Bytes { return k.(*mldsa.PrivateKey).PrivateKeyBytes() },
 			mkPriv: map[string]func(sd secretdata.Bytes, pub key.Key) (key.Key, error){
-				"NewPrivateKey":              func(sd secretdata.Bytes, pub key.Key) (key.Key, error) { return mldsa.NewPrivateKey(sd, idOf(p0), params) },
-				"NewPrivateKeyWithPublicKey": func(sd secretdata.Bytes, pub key.Key) (key.Key, error) { return mldsa.NewPrivateKeyWithPublicKey(sd, pub.(*mldsa.PublicKey)) },
+				"NewPrivateKey": func(sd secretdata.Bytes, pub key.Key) (key.Key, error) {
+					return mldsa.NewPrivateKey(sd, idOf(p0), params)
+				},
+				"NewPrivateKeyWithPublicKey": func(sd secretdata.Bytes, pub key.Key) (key.Key, error) {
+					return mldsa.NewPrivateKeyWithPublicKey(sd, pub.(*mldsa.PublicKey))
+				},
 			}})
 	}
 	// ---------------- SLH-DSA (fast-signing parameter set; signing still costs tens of ms)
@@ -163,8 +177,12 @@ func init() {
 			mkPub:   func(b []byte) (key.Key, error) { return slhdsa.NewPublicKey(b, idOf(p0), params) },
 			privArg: "privateKeyBytes", privAcc: "PrivateKeyBytes", getPriv: func(k key.Key) secretdata.Bytes { return k.(*slhdsa.PrivateKey).PrivateKeyBytes() },
 			mkPriv: map[string]func(sd secretdata.Bytes, pub key.Key) (key.Key, error){
-				"NewPrivateKey":              func(sd secretdata.Bytes, pub key.Key) (key.Key, error) { return slhdsa.NewPrivateKey(sd, idOf(p0), params) },
-				"NewPrivateKeyWithPublicKey": func(sd secretdata.Bytes, pub key.Key) (key.Key, error) { return slhdsa.NewPrivateKeyWithPublicKey(sd, pub.(*slhdsa.PublicKey)) },
+				"NewPrivateKey": func(sd secretdata.Bytes, pub key.Key) (key.Key, error) {
+					return slhdsa.NewPrivateKey(sd, idOf(p0), params)
+				},
+				"NewPrivateKeyWithPublicKey": func(sd secretdata.Bytes, pub key.Key) (key.Key, error) {
+					return slhdsa.NewPrivateKeyWithPublicKey(sd, pub.(*slhdsa.PublicKey))
+				},
 			}})
 	}
 	// ---------------- HPKE / ECIES
@@ -176,8 +194,12 @@ func init() {
 			mkPub:   func(b []byte) (key.Key, error) { return hpke.NewPublicKey(b, idOf(p0), params) },
 			privArg: "privateKeyBytes", privAcc: "PrivateKeyBytes", getPriv: func(k key.Key) secretdata.Bytes { return k.(*hpke.PrivateKey).PrivateKeyBytes() },
 			mkPriv: map[string]func(sd secretdata.Bytes, pub key.Key) (key.Key, error){
-				"NewPrivateKey":              func(sd secretdata.Bytes, pub key.Key) (key.Key, error) { return hpke.NewPrivateKey(sd, idOf(p0), params) },
-				"NewPrivateKeyFromPublicKey": func(sd secretdata.Bytes, pub key.Key) (key.Key, error) { return hpke.NewPrivateKeyFromPublicKey(sd, pub.(*hpke.PublicKey)) },
+				"NewPrivateKey": func(sd secretdata.Bytes, pub key.Key) (key.Key, error) {
+					return hpke.NewPrivateKey(sd, idOf(p0), params)
+				},
+				"NewPrivateKeyFromPublicKey": func(sd secretdata.Bytes, pub key.Key) (key.Key, error) {
+					return hpke.NewPrivateKeyFromPublicKey(sd, pub.(*hpke.PublicKey))
+				},
 			}})
 	}
 	{
@@ -188,7 +210,9 @@ func init() {
 			mkPub:   func(b []byte) (key.Key, error) { return hpke.NewPublicKey(b, idOf(p0), params) },
 			privArg: "privateKeyBytes", privAcc: "PrivateKeyBytes", getPriv: func(k key.Key) secretdata.Bytes { return k.(*hpke.PrivateKey).PrivateKeyBytes() },
 			mkPriv: map[string]func(sd secretdata.Bytes, pub key.Key) (key.Key, error){
-				"NewPrivateKey": func(sd secretdata.Bytes, pub key.Key) (key.Key, error) { return hpke.NewPrivateKey(sd, idOf(p0), params) },
+				"NewPrivateKey": func(sd secretdata.Bytes, pub key.Key) (key.Key, error) {
+					return hpke.NewPrivateKey(sd, idOf(p0), params)
+				},
 			}})
 	}
 	for v, t := range variantTemplates(hybrid.ECIESHKDFAES128GCMKeyTemplate(), T, C, R) {
@@ -199,8 +223,12 @@ func init() {
 			mkPub:   func(b []byte) (key.Key, error) { return ecies.NewPublicKey(b, idOf(p0), params) },
 			privArg: "privateKeyBytes", privAcc: "PrivateKeyBytes", getPriv: func(k key.Key) secretdata.Bytes { return k.(*ecies.PrivateKey).PrivateKeyBytes() },
 			mkPriv: map[string]func(sd secretdata.Bytes, pub key.Key) (key.Key, error){
-				"NewPrivateKey":              func(sd secretdata.Bytes, pub key.Key) (key.Key, error) { return ecies.NewPrivateKey(sd, idOf(p0), params) },
-				"NewPrivateKeyFromPublicKey": func(sd secretdata.Bytes, pub key.Key) (key.Key, error) { return ecies.NewPrivateKeyFromPublicKey(sd, pub.(*ecies.PublicKey)) },
+				"NewPrivateKey": func(sd secretdata.Bytes, pub key.Key) (key.Key, error) {
+					return ecies.NewPrivateKey(sd, idOf(p0), params)
+				},
+				"NewPrivateKeyFromPublicKey": func(sd secretdata.Bytes, pub key.Key) (key.Key, error) {
+					return ecies.NewPrivateKeyFromPublicKey(sd, pub.(*ecies.PublicKey))
+				},
 			}})
 	}
 	_ = rsassapkcs1.NewParameters
